@@ -32,8 +32,6 @@ def reshape_zero(name, c, detail):
     """`Reshape(allowzero=0)` meets a 0: aten_reshape with a 0 in the target; aten_flatten's Reshape
     path on a tensor with a zero-size dim outside the flattened range; aten_roll without dims on a
     tensor with a zero-size dim."""
-    if name == "reshape":
-        return 0 in c["size"]
     if name == "flatten":
         s = c["shape"]
         r = len(s)
@@ -45,8 +43,8 @@ def reshape_zero(name, c, detail):
         a, b = _norm(a, r), _norm(b, r)
         return any(d == 0 for d in s[:a] + s[b + 1:])
     if name == "roll":
-        # no dims: Reshape(result, Shape(x)) re-reads the 0; with dims: the slice end is Size(x) = 0
-        return 0 in c["shape"]
+        # with dims: the slice end is Size(x) = 0 (the no-dims path was fixed in 5bf0068)
+        return bool(c["dims"]) and 0 in c["shape"]
     return False
 
 
@@ -56,8 +54,9 @@ def unflatten_zero_infer(name, c, detail):
     return name == "unflatten" and -1 in c["sizes"] and 0 in c["shape"]
 
 
-def narrow_negative_start(name, c, detail):
-    return name == "narrow" and c["start"] < 0
+def narrow_negative_start_tensor(name, c, detail):
+    """tensor-valued (SymInt) negative start: not normalised by fix ca35059 (Python ints only)."""
+    return name == "narrow" and c["start"] < 0 and bool(c.get("tensor_args"))
 
 
 def chunk_uneven(name, c, detail):
@@ -94,6 +93,15 @@ def pool_len1_attr(name, c, detail):
         return False
     keys = ["ks", "st"] + (["dil"] if name.startswith("max_pool") else [])
     return any(isinstance(c[k_], list) and len(c[k_]) == 1 for k_ in keys)
+
+
+def upsample_bilinear_scales_ignored(name, c, detail):
+    """aten_upsample_bilinear2d ignores scales_h/scales_w; PyTorch uses them for the source coordinates when
+    align_corners=False, so the values differ whenever output_size != input_size * scale exactly."""
+    if name != "upsample_bilinear2d" or c["sc"] is None or c["ac"]:
+        return False
+    sp = c["shape"][2:]
+    return any(2 * c["out"][i] != sp[i] * c["sc"][i] for i in range(2))
 
 
 def roll_large_shift(name, c, detail):
@@ -157,19 +165,10 @@ def int_dtype_promotion(name, c, detail):
 PREDICATES = {
     "C08-squeeze-dim-nonunit": squeeze_dim_nonunit,
     "C08-reshape-zero": reshape_zero,
-    "C08-unflatten-zero-infer": unflatten_zero_infer,
-    "C08-narrow-negative-start": narrow_negative_start,
-    "C08-chunk-uneven": chunk_uneven,
-    "C08-cat-all-empty": cat_all_empty,
-    "C08-argmax-keepdim-nodim": argmax_keepdim_nodim,
-    "C08-roll-complex-negative-dim": roll_complex_negative_dim,
-    "C08-pool-len1-attr": pool_len1_attr,
-    "C08-roll-large-shift": roll_large_shift,
+    "C08-narrow-negative-start-tensor": narrow_negative_start_tensor,
+    "C08-upsample-bilinear-scales-ignored": upsample_bilinear_scales_ignored,
     "C08-empty-reduction": empty_reduction,
     "C08-rank0-explicit-dim": rank0_explicit_dim,
-    "C08-split-zero-dim": split_zero_dim,
-    "C08-all-dims-empty-list": all_dims_empty_list,
-    "C08-broadcast-to-neg1": broadcast_to_neg1,
     "C08-div-mode-int-f32": div_mode_int_f32,
     "C08-int-dtype-promotion": int_dtype_promotion,
 }
